@@ -144,10 +144,10 @@ type stSummary struct {
 }
 
 type stAnalysis struct {
-	e      *plycommon.Env
-	byName map[string][]*ssa.Function
-	sum    map[*ssa.Function]*stSummary
-	depth  int
+	e       *plycommon.Env
+	byName  map[string][]*ssa.Function
+	sum     map[*ssa.Function]*stSummary
+	depth   int
 	obsMemo map[string]bool
 }
 
